@@ -15,3 +15,4 @@ pub mod c02;
 pub mod c18;
 pub mod storage;
 pub mod c15;
+pub mod c14;
